@@ -68,6 +68,14 @@ def run_case(check, case, keep_events=False, patience=1):
                          limit)
         except DrawBudgetExceeded as d:
             viol = Violation("progress/draw-budget", str(d))
+        except MemoryError:
+            # (memory exhausted while the harness itself was at work - the
+            # checks catch and judge what the code under test raises: the
+            # workload was too large for the address-space limit)
+            import gc
+            gc.collect()
+            ctx.note("run abandoned: out of memory in the harness (size, "
+                     "not a verdict)")
         except RecursionError as r:
             # raised inside harness or code under test: checks convert the
             # ones from the code under test themselves; this is the harness.
